@@ -28,6 +28,7 @@ ASSUMPTIONS = [
 ]
 FLOORS = {"two-vendors+repeat": 0.3}
 
+JOB_TIME_LIMIT = 15.0   # seconds per job (normal jobs take milliseconds)
 N_SYN = {"quick": 60, "thorough": 300}
 N_CORPUS = {"quick": 90, "thorough": 192}
 _RB_TEXTS = None
@@ -68,6 +69,54 @@ def _pool(tier, seed):
         sprinkle(rules)
         rbs.append(rules)
     acls = [None, None, "alpha ~\nbeta ~\ngamma ~ %global\n", "~ %global\n"]
+    # per synthetic rulebook: merged generator ACLs with partially overlapping block rules that share child rule texts and differ in
+    # %cant_delete (compiled once per text and shared by all jobs using it - the lru_cache'd object is what history could corrupt)
+    from vf.model import refacl as RA
+    from vf.props.c02 import acl_from
+
+    class _R:   # URandom-compatible facade over random.Random
+        def __init__(self, r): self.r = r
+        def random(self): return self.r.random()
+        def randint(self, a, b): return self.r.randint(a, b)
+        def choice(self, seq): return self.r.choice(seq)
+        def sample(self, seq, k): return self.r.sample(list(seq), k)
+        def shuffle(self, l): self.r.shuffle(l)
+        def chance(self, p): return self.r.randint(0, 99) < p
+    rb_acls = []
+    for k, rules in enumerate(rbs):
+        texts = []
+        for v in range(2):
+            rnd = _R(random.Random("acl-%d-%d-%d" % (seed, k, v)))
+            named = []
+            for g in range(2):
+                a = acl_from(rnd, rules, skip=10)
+                if a:
+                    named.append(("G%d" % g, a))
+            if named:
+                texts.append(RA.combined_text(named))
+
+        # a deliberately overlapping pair of generators: G0 owns every block through its wildcard rule and protects the children
+        # (%cant_delete=1), G1 owns the letter-keyed blocks through a word-regex rule with deletable children of the same texts
+        def owner(rs, cd, special):
+            out = []
+            for r in rs:
+                if r.get("glob"):
+                    continue
+                toks = list(r["toks"])
+                if special and "*" in toks and r["children"]:
+                    toks[toks.index("*")] = "*/[a-z]+/"
+                elif special and r["children"]:
+                    continue
+                ch = owner(r["children"], cd, False) if r["children"] else []
+                if r["children"] and r["children"][0].get("rewrite"):
+                    ch = [RA.acl_rule(["~"], glob=True)]
+                out.append(RA.acl_rule(toks, ch, cd=cd if not r["children"] else 0))
+            return out
+        g0, g1 = owner(rules, 1, False), owner(rules, 0, True)
+        if g0 and g1:
+            texts.append(RA.combined_text([("G0", g0), ("G1", g1)]))
+            texts.append(texts[-1])
+        rb_acls.append(texts)
     for j in range(N_SYN[tier]):
         rnd = random.Random("job-%d-%d" % (seed, j))
         k = rnd.randrange(len(rbs))
@@ -75,7 +124,7 @@ def _pool(tier, seed):
         old = RL.gen_tree(rnd, ctx, 0.4)
         new = RL.mutate(rnd, ctx, old, 0.4)
         jobs.append({"kind": "syn", "rb": k, "rules": rbs[k], "vendor": rnd.choice(["huawei", "cisco", "arista"]), "old": RL.plain(old),
-                     "new": RL.plain(new), "acl": rnd.choice(acls), "comments": rnd.random() < 0.4})
+                     "new": RL.plain(new), "acl": rnd.choice(acls + rb_acls[k] + rb_acls[k]), "comments": rnd.random() < 0.4})
     return jobs
 
 
@@ -86,6 +135,24 @@ def _plain_diff(d):
 def _canon(x):
     from vf.props.c18 import canon
     return canon(x)
+
+
+def _acl_digest(rules):
+    """what a compiled ACL DECIDES, rule by rule (not its raw fields: the scratch 'match' field and harmless repetitions inside the
+    flag lists may change): covered-only-by-not-deletable flag, per-generator deletability, priority, and the same for the children.
+    If this changes for some rule, the row instantiating that rule alone is answered differently before and after - a history dependence."""
+    if rules is None:
+        return None
+    out = []
+    for part in ("local", "global"):
+        for rid, r in rules[part].items():
+            a = r["attrs"]
+            per = {}
+            for n, f in zip(a.get("generator_names") or [], a.get("cant_delete") or []):
+                per[n] = per.get(n, True) and bool(f)
+            out.append((part, rid, r["type"], all(a.get("cant_delete") or []), tuple(sorted(per.items())), a.get("prio"),
+                        _acl_digest(r["children"]) if r.get("children") else None))
+    return out
 
 
 def run_job(job, snapshots=False):
@@ -113,21 +180,38 @@ def run_job(job, snapshots=False):
         rb = sut.make_rb(RL.rule_text(job["rules"]), vendor)
         acl = compile_acl_text(job["acl"], vendor) if job["acl"] else None
         comments = job["comments"]
-    before = (json.dumps(old), json.dumps(new), _canon(rb) if snapshots else None)
+    before = (json.dumps(old), json.dumps(new), _canon(rb) if snapshots else None, _acl_digest(acl) if snapshots else None)
+    import signal
+
+    class _Timeout(BaseException):
+        pass
+
+    def _alarm(*_a):
+        raise _Timeout()
+    prev = signal.signal(signal.SIGALRM, _alarm)
+    signal.setitimer(signal.ITIMER_REAL, JOB_TIME_LIMIT)
     try:
         d, pt = _diff_and_patch(sut.Dev(hw), old, new, acl, None, comments, rb=rb)
         fmt = sut.registry().match(hw).make_formatter(indent="")
         oc = Orderer(rb["ordering"], hw.vendor).order_config(new)
         res = ["ok", _plain_diff(d), [list(p) for p in fmt.cmd_paths(pt).keys()], [[k, json.dumps(v)] for k, v in oc.items()]]
+    except _Timeout:
+        res = ["timeout"]     # a time budget hit is inconclusive, never a violation
     except Exception as e:
         res = ["raise", type(e).__name__, str(e)[:160]]
-    after = (json.dumps(old), json.dumps(new), _canon(rb) if snapshots else None)
+    finally:
+        signal.setitimer(signal.ITIMER_REAL, 0)
+        signal.signal(signal.SIGALRM, prev)
+    after = (json.dumps(old), json.dumps(new), _canon(rb) if snapshots else None,
+             _acl_digest(acl) if snapshots and res[0] != "timeout" else before[3])
     if before[0] != after[0]:
         problems.append("the caller's OLD configuration tree was modified")
     if before[1] != after[1]:
         problems.append("the caller's NEW configuration tree was modified")
     if snapshots and before[2] != after[2]:
         problems.append("the compiled rulebook was modified")
+    if snapshots and before[3] != after[3]:
+        problems.append("the shared compiled ACL now decides differently for some rule (deletability / ownership changed as a side effect of matching)")
     return res, problems, vendor
 
 
@@ -195,6 +279,9 @@ def check(case):
         if problems:
             raise Violation("input-modified", f"job {idx} at position {pos}: " + "; ".join(problems), det)
         fresh = fr["fresh"][str(idx)]
+        if res[0] == "timeout" or fresh[0] == "timeout":
+            labels.append("timeout-inconclusive")
+            continue
         if json.loads(json.dumps(res)) != fresh:
             det.update({"in_history": res, "fresh": fresh})
             raise Violation("history-dependent", f"job {idx} after history {case['seq'][:pos]} gives a different result than in a fresh process "
